@@ -513,19 +513,40 @@ func c14Keywords(c *Ctx, rule string) {
 		reached := false
 		// the lookup call: in Scan itself, or in the arm helper Scan hands the identifier arm to
 		var lookups []ssa.CallInstruction
+		kfn := c.fn("KeywordFromString")
+		isLookup := func(call ssa.CallInstruction) bool {
+			g := calleeOf(call)
+			if g == nil {
+				return false
+			}
+			if g == git && git != c.scanFn() {
+				return true
+			}
+			return g == kfn && kfn != nil && call.Parent() != git // the lookup written out where the word is scanned
+		}
 		for _, call := range o.Fold.ReachableCalls() {
-			if calleeOf(call) == git {
+			if isLookup(call) {
 				lookups = append(lookups, call)
 				continue
 			}
-			if g := calleeOf(call); g != nil && c.inModule(g) && typeName(recvType(g)) == "Scanner" && peekKind(g) == "" {
-				for _, inner := range callsTo(g, git) {
-					lookups = append(lookups, inner)
+			if g := calleeOf(call); g != nil && g != git && c.inModule(g) && typeName(recvType(g)) == "Scanner" && peekKind(g) == "" {
+				instrs(g, func(_ *ssa.BasicBlock, _ int, x ssa.Instruction) {
+					if inner, ok := x.(ssa.CallInstruction); ok && (isLookup(inner) || calleeOf(inner) == git && git != c.scanFn()) {
+						lookups = append(lookups, inner)
+					}
+				})
+			}
+		}
+		if git == c.scanFn() {
+			// the lookup sits in Scan itself
+			for _, call := range o.Fold.ReachableCalls() {
+				if calleeOf(call) == kfn && kfn != nil {
+					lookups = append(lookups, call)
 				}
 			}
 		}
 		for _, call := range lookups {
-			if calleeOf(call) == git {
+			if true {
 				reached = true
 				// the tokenValue store before it slices text[tokenPos:pos]
 				sliceOK := false
